@@ -72,12 +72,19 @@ CORE_TEXT = {
  'C19': 'shape of a system notification (system flag, no payload, named sender), pause and resume notify exactly once after the state change',
  'C20': 'what each destructor closes: poll handle with the context, user descriptors only with auto-close, internal descriptors when polling stops (idempotent)',
 }
+NOTE_EXTRA = {
+ 'C14': ' C14 specifically: the race-freedom theorem is about an inventory produced by a syntactic translator (nm for the symbols, a regular-expression scan for '
+        'writers; writes through pointers that escaped earlier, and state shared through the heap or the kernel, are outside it) and about a phase model '
+        'whose ordering mechanisms (pthread_once, ELF constructor, "m_set_memhook before anything else") are assumed, not derived from the C. "Under every '
+        'interleaving" is NOT proved for the real code: ThreadSanitizer judges only the interleavings the runs produce (partial). The model is sequential: a '
+        'foreign call is atomic with respect to the owner thread (in the driver the owner waits for the foreign thread).',
+}
 for _p, _t in CORE_TEXT.items():
     CLAIMS[_p] = dict(
         text='Coq one-step theorems over the executable actor-core model, for every behaviour of user callbacks: ' + _t +
              '. Tie: the extracted model runs the same scripted, re-entrant programs as the real library (ASan/UBSan build, canonical epoll '
              'order, scripted environment); full traces must agree; a property-level projection decides whether a difference is a violation.',
-        note=NOTE_COMMON + 'Core model = hand-written statement-order transliteration of ctx.c/mod.c/ps.c/src.c/evts.c/epoll.c (coq/CoreModel.v, CoreExec.v) with scripted, re-entrant callbacks. PROVED: the one-step theorems of the property file, for every behaviour of user callbacks. NOT PROVED (decided per run by the differential check and the trace monitors only): statements over whole histories. Out of the model: kqueue/uring plugins, FUSE, dlopen modules, task threads, thresholds firing, real time.',
+        note=NOTE_COMMON + 'Core model = hand-written statement-order transliteration of ctx.c/mod.c/ps.c/src.c/evts.c/epoll.c (coq/CoreModel.v, CoreExec.v) with scripted, re-entrant callbacks. PROVED: the one-step theorems of the property file, for every behaviour of user callbacks. NOT PROVED (decided per run by the differential check and the trace monitors only): statements over whole histories. Out of the model: kqueue/uring plugins, FUSE, dlopen modules, task threads, thresholds firing, real time.' + NOTE_EXTRA.get(_p, ''),
         technique='Coq proof of one-step lemmas + extracted-model differential testing with trace monitors (history-level clauses not proved)',
         design='7/' + _p)
 
